@@ -84,6 +84,8 @@ pub struct PrefixSpec {
 pub enum Addr6 {
     SelfAddr,
     Ip(Ipv6Addr),
+    /// the interface's own address written out (the address `$self6` stands for, as a literal)
+    SelfLiteral,
 }
 
 #[derive(Clone, Debug, Serialize, Deserialize, PartialEq)]
@@ -293,7 +295,7 @@ fn iface_strategy() -> impl Strategy<Value = IfaceSpec> {
             valid,
             preferred,
         });
-    let addr6 = prop_oneof![1 => Just(Addr6::SelfAddr), 3 => ip6_strategy().prop_map(Addr6::Ip)];
+    let addr6 = prop_oneof![2 => Just(Addr6::SelfAddr), 6 => ip6_strategy().prop_map(Addr6::Ip), 1 => Just(Addr6::SelfLiteral)];
     let rdnss = (tri(proptest::collection::vec(addr6, 0..=8)), tri(dur_strategy()))
         .prop_map(|(addresses, lifetime)| RdnssSpec { addresses, lifetime });
     let dnssl = (tri(prop_oneof![24 => proptest::collection::vec(domain_strategy(), 0..=5), 1 => long_domain_list()]), tri(dur_strategy()))
@@ -447,6 +449,7 @@ pub fn render_named(c: &RaCase, ifname: &str) -> Option<String> {
                     .map(|a| match a {
                         Addr6::SelfAddr => ystr("$self6"),
                         Addr6::Ip(ip) => ystr(&ip.to_string()),
+                        Addr6::SelfLiteral => ystr(&c.self6.to_string()),
                     })
                     .collect(),
             )
@@ -776,7 +779,7 @@ pub fn judge_ra(c: &RaCase, mtu_param: Option<u32>, ra: &Ra, unrepresentable: bo
     }
     // RDNSS
     let want_servers: Option<Vec<Ipv6Addr>> = match i.rdnss.as_ref().map(|r| &r.addresses) {
-        Some(Tri::Val(v)) => Some(v.iter().map(|a| match a { Addr6::SelfAddr => c.self6, Addr6::Ip(ip) if ip.is_unspecified() => c.self6, Addr6::Ip(ip) => *ip }).collect()),
+        Some(Tri::Val(v)) => Some(v.iter().map(|a| match a { Addr6::SelfAddr | Addr6::SelfLiteral => c.self6, Addr6::Ip(ip) if ip.is_unspecified() => c.self6, Addr6::Ip(ip) => *ip }).collect()),
         Some(Tri::Null) => None,
         _ => {
             // top-level default (which itself defaults to [$self4, $self6])
